@@ -92,7 +92,7 @@ ASSUMPTIONS = [
     "below -1e-3*scale; Choi matrices are exactly Hermitian or non-Hermitian by an O(1) margin (is_hermitian uses "
     "rtol 1e-5)",
     "natural_representation accepts a flat list of Kraus operators only (its signature)",
-    "kraus_to_choi is checked with its default sys=2 only (the property text fixes J = sum E_ij (x) Phi(E_ij))",
+    "kraus_to_choi: sys omitted or 2 gives J = sum E_ij (x) Phi(E_ij) (the property text); sys=1 is held to the same entries with the tensor factors exchanged",
     "channel_dim's environment dimension of a Choi matrix is compared with r only when the r pairs are linearly "
     "independent by a margin (smallest of the r leading singular values > 1e-6 * largest)",
     "partial_channel with a CP list form (flat / nested / single row) is drawn with square surroundings in the main "
@@ -311,6 +311,17 @@ def check_k2c(case):
     for name, rep in kraus_forms(m, pairs).items():
         out = kraus_to_choi(rep)
         close(out, jref, tol, f"kraus_to_choi(<{name}>) vs sum E_ij (x) Phi(E_ij)", "k2c:" + name)
+    # the optional second argument names the half of the maximally entangled operator the map acts on: 2 is the default
+    # convention above, 1 gives sum_ij Phi(E_ij) (x) E_ij - the same entries with the two tensor factors exchanged
+    # (kraus_to_choi is partial_channel on that half, so this is the "id (x) Phi (x) id" clause at its smallest)
+    i1, i2 = m["i1"], m["i2"]
+    o1, o2 = jref.shape[0] // i1, jref.shape[1] // i2
+    jswap = jref.reshape(i1, o1, i2, o2).transpose(1, 0, 3, 2).reshape(o1 * i1, o2 * i2)
+    for name, rep in kraus_forms(m, pairs).items():
+        out = kraus_to_choi(rep, 2)
+        close(out, jref, tol, f"kraus_to_choi(<{name}>, 2) vs sum E_ij (x) Phi(E_ij)", "k2c:sys2:" + name)
+        out = kraus_to_choi(rep, 1)
+        close(out, jswap, tol, f"kraus_to_choi(<{name}>, 1) vs sum Phi(E_ij) (x) E_ij", "k2c:sys1:" + name)
 
 
 # ------------------------------------------------------------------------------------------
@@ -426,6 +437,65 @@ def check_c2k_hrect(case):
         _check_family(fam, m, np.asarray(j, dtype=complex), max(1.0, fro(j)), case["xseeds"], "choi_to_kraus(Hermitian J, dim=[[i1,o1],[i2,o2]] rectangular)", hermitian_rule=False)
     except Violation as v_:
         raise Violation(v_.message, "c2k:hermitian-J-rect-spaces") from None
+
+
+# ------------------------------------------------------------------------------------------
+# 3c. choi_to_kraus: the `tol` argument (added after seeded change C04-y2 - signs of a Hermitian indefinite Choi matrix
+#     selected with a fixed 1e-8 while the operators are selected with `tol` - was missed: no generated Choi matrix had
+#     an eigenvalue anywhere near the threshold).  "Eigenvalues / singular values above tol are kept, the others may be
+#     dropped": the family returned must rebuild J up to the part that may be dropped.
+# ------------------------------------------------------------------------------------------
+@st.composite
+def _c2k_tol_case(draw):
+    return {
+        "d": draw(st.integers(2, 3)),
+        "form": draw(st.sampled_from(["herm_indef", "herm_indef", "general"])),
+        "cplx": draw(st.booleans()),
+        "tol": draw(st.sampled_from([None, 1e-6, 1e-12, 1e-10, 1e-4, 1e-8])),
+        "factor": draw(st.sampled_from([3.0, 30.0, 300.0, 1 / 3.0, 1 / 30.0])),
+        "sign": draw(st.sampled_from([1, -1])),
+        "nsmall": draw(st.integers(1, 2)),
+        "seed": draw(gen.SEED),
+    }
+
+
+def check_c2k_tol(case):
+    from toqito.channel_ops import choi_to_kraus
+
+    choi_to_kraus = _pure(choi_to_kraus)
+
+    d = case["d"]
+    n = d * d
+    tol = 1e-9 if case["tol"] is None else case["tol"]
+    g = gen.rng(case["seed"])
+    lam = g.uniform(0.3, 1.5, size=n) * g.choice([-1.0, 1.0], size=n)
+    lam[0], lam[1] = abs(lam[0]), -abs(lam[1])  # clearly indefinite
+    small = tol * case["factor"]
+    for k in range(case["nsmall"]):
+        lam[n - 1 - k] = small * case["sign"] * (1 if k == 0 else -1)
+    u = gen.rand_unitary(case["seed"] // 5 + 3, n, real=not case["cplx"])
+    if case["form"] == "herm_indef":
+        j = (u * lam) @ u.conj().T
+        j = (j + j.conj().T) / 2
+    else:
+        w = gen.rand_unitary(case["seed"] // 7 + 1, n, real=not case["cplx"])
+        j = (u * np.abs(lam)) @ w.conj().T
+    kw = {} if case["tol"] is None else {"tol": case["tol"]}
+    fam = choi_to_kraus(j, **kw)
+    what = f"choi_to_kraus(<{case['form']} Choi matrix with {case['nsmall']} eigen/singular value(s) of size {small:.1e}>, {kw or 'default tol = 1e-9'})"
+    fp, _flat = as_pairs(fam, what)
+    for a, b in fp:
+        req(a.shape == (d, d) and b.shape == (d, d), f"{what}: operator shapes {a.shape}, {b.shape}", "c2k:opshape")
+    jback = choi_ref(fp, d, d) if fp else np.zeros_like(j)
+    droppable = small if case["factor"] < 1 else 0.0
+    err = float(np.linalg.norm(jback - j, 2))
+    req(
+        err <= 1.5 * droppable + 1e-11,
+        f"{what}: the returned family rebuilds J with spectral-norm error {err:.2e}; values above tol must be kept, so at most {droppable:.1e} may be lost",
+        "c2k:tol-band",
+    )
+    if case["factor"] > 1:
+        req(len(fp) == n, f"{what}: {len(fp)} operators returned, all {n} eigen/singular values exceed tol", "c2k:tol-band-count")
 
 
 # ------------------------------------------------------------------------------------------
@@ -747,6 +817,7 @@ SUBCHECKS = [
     SubCheck("kraus_to_choi", check_k2c, _apply_case, lambda c: nt_map(c["map"]), quick=10000, thorough=160000),
     SubCheck("choi_to_kraus", check_c2k, _c2k_case, lambda c: nt_map(c["map"]), quick=15000, thorough=240000),
     SubCheck("choi_to_kraus_hermitian_rect", check_c2k_hrect, _c2k_hrect_case, lambda c: "hermitian J, rectangular spaces" + (",complex" if c["cplx"] else ""), quick=1500, thorough=24000, shards=4),
+    SubCheck("choi_to_kraus_tol", check_c2k_tol, _c2k_tol_case, lambda c: f"{c['form']},tol={c['tol']},x{c['factor']:.3g}", quick=3000, thorough=40000),
     SubCheck("chains", check_chain, _chain_case, nt_chain, quick=12000, thorough=192000),
     SubCheck("partial_channel", check_partial, _partial_case, nt_partial, quick=18000, thorough=288000),
     SubCheck("partial_channel_cp_list_rect", check_partial_cp_rect, lambda: _partial_case(cp_list_rect=True), nt_partial, quick=1500, thorough=24000, shards=4),
